@@ -90,7 +90,13 @@ def make_problem(nxt, rew, prob, v0=None, pol0=None, enc=None, prob_as_array=Fal
 
         def transition(self, s, a, e):
             si, ai, ei = self._si(s), self._ai(a), self._ei(e)
-            return self._enc_states[self._nxt[si, ai, ei]], self._rew[si, ai, ei]
+            r = self._rew[si, ai, ei]
+            if enc.s_off > 0:
+                # vectors below the offset (e.g. the all-zero padding vector) are NOT states of this
+                # problem: give them a poisoned reward so that any leak of a padding slot into a
+                # real state's value or action is visible
+                r = jnp.where(jnp.all(s >= enc.s_off), r, 777.0)
+            return self._enc_states[self._nxt[si, ai, ei]], r
 
         def initial_value(self, s):
             if self._v0 is None:
